@@ -1,113 +1,181 @@
 ------------------------------- MODULE SrvInfo -------------------------------
-(* Multi-part server infos (C18): PartialServerInfo::merge / get_info.
+(* Multi-part server infos (C18): PartialServerInfo::merge / get_info / take_info.
 
-   An *instance* is what one server sends for one request:
-     inst = [v |-> "v664" | "v6ex", n |-> announced number of clients,
-             parts |-> <<[bits, cl, main]>>]   part p contributes the mask bits `bits` (6_64: the
-                                              client slots offset..; 6ex: {packet number}),
-                                              the clients `cl` (a set of client ids 1..n, the
-                                              parts' sets are disjoint) and carries the header
-                                              (announced counts) iff `main`.
-   A *partial* is [rcv, cls, hdr, got]: the received mask as the code keeps it, the bag of
-   collected clients (id -> multiplicity), whether its info carries the header, and — history
-   variable, property level — the set of parts that were merged into it.
+   An *instance* is everything the application may be fed in one run:
+     inst = [parts |-> <<part>>, rec |-> [client id -> record id], wf |-> the well-formed servers]
+     part = [srv   |-> the server (request) the datagram belongs to,
+             v     |-> "v664" | "v6ex",      tok |-> the token it carries,
+             main  |-> it carries the header (6_64: always; 6ex: the "iext" packet),
+             n     |-> the number of clients its header announces,
+             off   |-> 6_64: the offset field; 6ex: the packet number (0 for the main packet),
+             cl    |-> the client ids of its client records, in wire order]
+   A 6_64 client record in slot s = off + k - 1 sets mask bit s; records in slots >= 64 are
+   dropped; a 6ex packet sets the bit of its packet number.  Client id c stands for the record
+   inst.rec[c] (KeyOf): *different clients may carry equal records* and are then listed with
+   their multiplicity.  The parts of a server are *well formed* (WellFormed) when they are what
+   one server sends for one request: same version and token, disjoint slots / packet numbers and
+   clients, every header announcing the number of clients there are.  Everything else (foreign
+   tokens and versions, parts of another server with the same token, overlapping or out-of-range
+   slots, repeated packet numbers, two main packets, empty "more" packets) is modelled at the
+   detailed level only: the property (C18) speaks about the parts of one info.
 
-   Detailed level: Merge is serverbrowse/src/protocol.rs `merge`, statement by statement.
-   With MaskUpdated = FALSE it is the pinned code, which never ORs `other.received` into
-   `self.received`; the steps where that matters are exactly MergeRepeated_KnownBug (finding
-   F1).  With MaskUpdated = TRUE (the repaired code) that action is never enabled.
+   A *partial* is [tok, ver, hdr, rcv, cls, got, taken]: token and version of its info, the part
+   whose header it carries (0: none - a "more" packet that has not met its main packet; the
+   announced number is then 0), the received mask as the code keeps it, the **bag** of collected
+   clients, the history variable `got` (set of parts merged - property level), and whether
+   take_info emptied it.
 
-   Property level (what the user relies on): the observable result of any sequence and any
-   bracketing of merges is a function of the *set* of parts merged: complete iff the header
-   and every announced client were received, and then every client is listed once, in the
-   canonical order (the result is a sequence; see KeyOf / CanonSeq). *)
+   Detailed level: Merge is serverbrowse/src/protocol.rs `merge`, statement by statement
+   (token / version / multi-part checks, `have` / `overlap` / `extend`, the 6ex `mem::swap`); an
+   error leaves the partial as it was.  With MaskUpdated = FALSE it is the pinned code, which
+   never ORs `other.received` into `self.received`; the steps where that matters are exactly
+   MergeRepeated_KnownBug (finding F1).  With MaskUpdated = TRUE that action is never enabled.
+
+   Property level (what the user relies on): for partials made of parts of one well-formed
+   server (Pure) the observable result of any sequence and any bracketing of merges is a function
+   of the *set* of parts merged: complete iff the header and every announced client were
+   received, and then every client is listed once - as records with multiplicity, in the
+   canonical order (CanonSeq). *)
 EXTENDS Integers, Sequences, FiniteSets, TLC, Functions, SequencesExt
 
 CONSTANT MaskUpdated
 
-\* ---------------------------------------------------------------- bags of client ids
+\* ---------------------------------------------------------------- bags
 EmptyB == <<>>
 BagOf(set) == [c \in set |-> 1]
 BagAdd(a, b) == [c \in (DOMAIN a) \cup (DOMAIN b) |->
                    (IF c \in DOMAIN a THEN a[c] ELSE 0) + (IF c \in DOMAIN b THEN b[c] ELSE 0)]
 BagSize(a) == FoldFunction(LAMBDA x, y : x + y, 0, a)
+BagOfSeq(s) == FoldLeft(LAMBDA acc, x : BagAdd(acc, BagOf({x})), EmptyB, s)
+\* the bag of f[c] for c in bag
+BagMap(f, bag) == FoldLeft(LAMBDA acc, c : BagAdd(acc, (f[c] :> bag[c])), EmptyB, SetToSeq(DOMAIN bag))
 
 \* ---------------------------------------------------------------- parsing a part
+Multi == {"v664", "v6ex"}
+KeptIdx(part) == IF part.v = "v664" THEN {k \in 1..Len(part.cl) : part.off + k - 1 <= 63} ELSE 1..Len(part.cl)
+Bits(part) == IF part.v = "v664" THEN {part.off + k - 1 : k \in KeptIdx(part)} ELSE {part.off}
+KeptSeq(part) == [k \in 1..Cardinality(KeptIdx(part)) |-> part.cl[k]]
+\* does Info*Response::parse accept the datagram of the part ("count sanity check": at most 64 clients
+\* announced in a 6_64 header; offset >= 0; packet number 1..63)
+Parses(part) == IF part.v = "v664" THEN part.off >= 0 /\ part.n >= 0 /\ part.n <= 64
+                ELSE IF part.main THEN part.n >= 0 ELSE part.off >= 1 /\ part.off <= 63
 ParsePart(inst, p) ==
   LET part == inst.parts[p] IN
-  [rcv |-> part.bits, cls |-> BagOf(part.cl), hdr |-> part.main, got |-> {p}]
+  [tok |-> part.tok, ver |-> part.v, hdr |-> IF part.main THEN p ELSE 0, rcv |-> Bits(part),
+   cls |-> BagOfSeq(KeptSeq(part)), got |-> {p}, taken |-> FALSE]
+\* what take_info leaves behind: a default info (token 0, version 0.5) with every bit set
+Spent == [tok |-> 0, ver |-> "v5", hdr |-> 0, rcv |-> 0..63, cls |-> EmptyB, got |-> {}, taken |-> TRUE]
 
 \* ---------------------------------------------------------------- merge, as the code does it
 \* which branch of `merge` is taken
-Branch(inst, self, other) ==
-  IF other.rcv \subseteq self.rcv THEN "have"              \* "We already have that server info."
-  ELSE IF self.rcv \cap other.rcv # {} THEN "overlap"       \* Err(OverlappingInfos)
+Branch(self, other) ==
+  IF self.tok # other.tok THEN "tokens"                       \* Err(DifferingTokens)
+  ELSE IF self.ver # other.ver THEN "versions"                \* Err(DifferingVersions)
+  ELSE IF self.ver \notin Multi THEN "notmulti"               \* Err(NotMultipartVersion)
+  ELSE IF other.rcv \subseteq self.rcv THEN "have"            \* "We already have that server info."
+  ELSE IF self.rcv \cap other.rcv # {} THEN "overlap"         \* Err(OverlappingInfos)
   ELSE "extend"
+ResOf(br) == IF br \in {"have", "extend"} THEN "ok" ELSE br
 
-Merge(inst, self, other) ==
-  LET br == Branch(inst, self, other) IN
-  IF br # "extend" THEN self
-  ELSE LET sw == inst.v = "v6ex" /\ 0 \notin self.rcv       \* mem::swap(self, &mut other)
+Merge(self, other) ==
+  LET br == Branch(self, other) IN
+  IF br # "extend" THEN self                                  \* an error leaves the partial as it was
+  ELSE LET sw == self.ver = "v6ex" /\ 0 \notin self.rcv       \* mem::swap(self, &mut other)
            a == IF sw THEN other ELSE self
            b == IF sw THEN self ELSE other IN
-       [rcv |-> IF MaskUpdated THEN a.rcv \cup b.rcv ELSE a.rcv,
-        cls |-> BagAdd(a.cls, b.cls), hdr |-> a.hdr, got |-> a.got \cup b.got]
+       [tok |-> a.tok, ver |-> a.ver, hdr |-> a.hdr,
+        rcv |-> IF MaskUpdated THEN a.rcv \cup b.rcv ELSE a.rcv,
+        cls |-> BagAdd(a.cls, b.cls), got |-> a.got \cup b.got, taken |-> FALSE]
 
 \* the mask a partial would have if `merge` kept it up to date
-ExactRcv(inst, x) == UNION {inst.parts[p].bits : p \in x.got}
+ExactRcv(inst, x) == IF x.taken THEN 0..63 ELSE UNION {Bits(inst.parts[p]) : p \in x.got}
 BranchExact(inst, self, other) ==
-  Branch(inst, [self EXCEPT !.rcv = ExactRcv(inst, self)], [other EXCEPT !.rcv = ExactRcv(inst, other)])
+  Branch([self EXCEPT !.rcv = ExactRcv(inst, self)], [other EXCEPT !.rcv = ExactRcv(inst, other)])
 \* the stale mask sends `merge` down another branch than the parts really merged warrant:
 \* "extend" instead of "have"/"overlap" (a repeated part is merged again: clients duplicated), or
-\* "have" instead of "extend" (a partial whose mask understates its contents is dropped)
-StaleMaskMatters(inst, self, other) == Branch(inst, self, other) # BranchExact(inst, self, other)
+\* "have"/"overlap" instead of "extend" (a partial whose mask understates its contents is dropped)
+StaleMaskMatters(inst, self, other) == Branch(self, other) # BranchExact(inst, self, other)
 
 \* ---------------------------------------------------------------- the clients and their order
-\* A client is the record the wire carries: (name, clan, country, score, flags).  Client id c
-\* (1..64) stands for the record whose fields are bits of c - 1, so that *every field has
-\* duplicates across clients and parts* (two names, two clans, ...) while whole records differ:
+\* A client record is what the wire carries: (name, clan, country, score, flags).  Record id r
+\* (1..64) stands for the record whose fields are bits of r - 1, so that *every field has
+\* duplicates across records* (two names, two clans, ...) while whole records differ:
 \*   name = bit 0, clan = bit 1, country = bit 2, score = bit 3 + 2 * bit 5, flags = bit 4.
-KeyOf(c) == LET k == c - 1 IN
+KeyOf(r) == LET k == r - 1 IN
   <<k % 2, (k \div 2) % 2, (k \div 4) % 2, ((k \div 8) % 2) + 2 * ((k \div 32) % 2), (k \div 16) % 2>>
 LexLess(x, y) == \E i \in 1..5 : x[i] < y[i] /\ \A j \in 1..(i - 1) : x[j] = y[j]
-\* the result handed out by get_info / take_info is a *sequence*: the collected clients in the
-\* canonical order (all fields compared, in wire order) — whatever order the parts arrived in
-CanonSeq(bag) ==
-  LET ids == SetToSortSeq(DOMAIN bag, LAMBDA a, b : LexLess(KeyOf(a), KeyOf(b))) IN
-  FoldLeft(LAMBDA acc, c : acc \o [j \in 1..bag[c] |-> c], <<>>, ids)
+\* the result handed out by get_info / take_info is a *sequence of records*: the collected clients'
+\* records with their multiplicity in the canonical order (all fields compared, in wire order) -
+\* whatever order the parts arrived in
+CanonSeq(rbag) ==
+  LET ids == SetToSortSeq(DOMAIN rbag, LAMBDA a, b : LexLess(KeyOf(a), KeyOf(b))) IN
+  FoldLeft(LAMBDA acc, r : acc \o [j \in 1..rbag[r] |-> r], <<>>, ids)
+Records(inst, bag) == CanonSeq(BagMap(inst.rec, bag))
 
 \* get_info: complete iff the number of collected clients equals the announced number
-Announced(inst, x) == IF x.hdr THEN inst.n ELSE 0
+Announced(inst, x) == IF x.hdr = 0 THEN 0 ELSE inst.parts[x.hdr].n
 Complete(inst, x) == BagSize(x.cls) = Announced(inst, x)
 \* what the caller can observe of a partial
-Obs(inst, x) == [complete |-> Complete(inst, x), clients |-> IF Complete(inst, x) THEN CanonSeq(x.cls) ELSE <<>>]
+\* (a complete info also shows which server's header it carries and the number that header announces)
+HdrSrv(inst, x) == IF x.hdr = 0 THEN 0 ELSE inst.parts[x.hdr].srv
+Obs(inst, x) == IF Complete(inst, x)
+                THEN [complete |-> TRUE, clients |-> Records(inst, x.cls), srv |-> HdrSrv(inst, x), n |-> Announced(inst, x)]
+                ELSE [complete |-> FALSE, clients |-> <<>>, srv |-> 0, n |-> 0]
 
 \* ---------------------------------------------------------------- what the user relies on
-ClientsOf(inst, got) == UNION {inst.parts[p].cl : p \in got}
+PartsOf(inst, s) == {p \in 1..Len(inst.parts) : inst.parts[p].srv = s}
+SeqSet(s) == {s[k] : k \in 1..Len(s)}
+ClientsOf(inst, got) == UNION {SeqSet(inst.parts[p].cl) : p \in got}
+\* the parts of server s are what one server sends for one request
+WellFormed(parts, s) ==
+  LET P == {p \in 1..Len(parts) : parts[p].srv = s}
+      pt(p) == parts[p]
+      n == Cardinality(UNION {SeqSet(parts[p].cl) : p \in P}) IN
+  /\ P # {}
+  /\ \A p \in P, q \in P : pt(p).v = pt(q).v /\ pt(p).tok = pt(q).tok
+  /\ \A p \in P : /\ Parses(pt(p)) /\ KeptIdx(pt(p)) = 1..Len(pt(p).cl)
+                  /\ Cardinality(SeqSet(pt(p).cl)) = Len(pt(p).cl)
+                  /\ (pt(p).main => pt(p).n = n)
+                  /\ (pt(p).v = "v664" => pt(p).main)
+                  /\ (pt(p).v = "v6ex" => (pt(p).main <=> pt(p).off = 0) /\ (~pt(p).main => Len(pt(p).cl) >= 1))
+  /\ \A p \in P, q \in P : p # q => Bits(pt(p)) \cap Bits(pt(q)) = {} /\ SeqSet(pt(p).cl) \cap SeqSet(pt(q).cl) = {}
+  /\ \E p \in P : pt(p).main
+\* an instance carries the set of its well-formed servers (computed once): inst.wf
+MkInst(parts, rec) == [parts |-> parts, rec |-> rec,
+                       wf |-> {s \in {parts[p].srv : p \in 1..Len(parts)} : WellFormed(parts, s)}]
+\* the property speaks about this partial: parts of one well-formed server and nothing else
+SrvsOf(inst, got) == {inst.parts[p].srv : p \in got}
+Pure(inst, x) == /\ ~x.taken /\ Cardinality(SrvsOf(inst, x.got)) = 1
+                 /\ SrvsOf(inst, x.got) \subseteq inst.wf
+SameInfo(inst, x, y) == Pure(inst, x) /\ Pure(inst, y) /\ SrvsOf(inst, x.got) = SrvsOf(inst, y.got)
 HeaderIn(inst, got) == \E p \in got : inst.parts[p].main
-PropComplete(inst, got) == HeaderIn(inst, got) /\ ClientsOf(inst, got) = 1..inst.n
+AllOf(inst, got) == ClientsOf(inst, PartsOf(inst, CHOOSE s \in SrvsOf(inst, got) : TRUE))
+PropComplete(inst, got) == HeaderIn(inst, got) /\ ClientsOf(inst, got) = AllOf(inst, got)
 PropObs(inst, got) ==
-  [complete |-> PropComplete(inst, got),
-   clients |-> IF PropComplete(inst, got) THEN CanonSeq(BagOf(1..inst.n)) ELSE <<>>]
-\* result of a merge at the property level: an error is only legal for a genuine partial overlap
+  IF PropComplete(inst, got)
+  THEN [complete |-> TRUE, clients |-> Records(inst, BagOf(AllOf(inst, got))),
+        srv |-> CHOOSE s \in SrvsOf(inst, got) : TRUE, n |-> Cardinality(AllOf(inst, got))]
+  ELSE [complete |-> FALSE, clients |-> <<>>, srv |-> 0, n |-> 0]
+\* result of a merge of two partials of the same info: an error is only legal for a genuine partial overlap
 PropResultOk(self, other, res) ==
   \/ res = "ok"
   \/ res = "overlap" /\ self.got \cap other.got # {} /\ ~(other.got \subseteq self.got)
 PropGot(self, other, res) == IF res = "ok" THEN self.got \cup other.got ELSE self.got
 
 \* ---------------------------------------------------------------- the state machine
-\* pool = the partials the application currently holds (a sequence); nparse counts parsed
-\* parts (length of the sequence of received datagrams); bug counts MergeRepeated_KnownBug steps
-VARIABLES inst, pool, nparse, bug, act
-vars == <<inst, pool, nparse, bug, act>>
+\* pool = the partials the application currently holds (a sequence); cnt[p] = how often part p was
+\* received; bug counts MergeRepeated_KnownBug steps
+VARIABLES inst, pool, cnt, bug, act
+vars == <<inst, pool, cnt, bug, act>>
 
 DropAt(s, j) == [k \in 1..(Len(s) - 1) |-> IF k < j THEN s[k] ELSE s[k + 1]]
+Total(f) == FoldFunction(LAMBDA x, y : x + y, 0, f)
 
-Receive(p, MaxOps, MaxPool) ==
-  /\ nparse < MaxOps /\ Len(pool) < MaxPool
-  /\ pool' = Append(pool, ParsePart(inst, p))
-  /\ nparse' = nparse + 1
-  /\ act' = [a |-> "parse", p |-> p]
+Receive(p, MaxOps, MaxRep, MaxPool) ==
+  /\ Total(cnt) < MaxOps /\ cnt[p] < MaxRep /\ Len(pool) < MaxPool
+  /\ pool' = IF Parses(inst.parts[p]) THEN Append(pool, ParsePart(inst, p)) ELSE pool
+  /\ cnt' = [cnt EXCEPT ![p] = @ + 1]
+  /\ act' = [a |-> "parse", p |-> p, res |-> IF Parses(inst.parts[p]) THEN "ok" ELSE "none"]
   /\ UNCHANGED <<inst, bug>>
 
 MergeStep(i, j, known) ==
@@ -115,39 +183,55 @@ MergeStep(i, j, known) ==
   /\ known = StaleMaskMatters(inst, pool[i], pool[j])
   /\ LET self == pool[i]
          other == pool[j]
-         br == Branch(inst, self, other)
+         br == Branch(self, other)
          bx == BranchExact(inst, self, other)
-         res == IF br = "overlap" THEN "overlap" ELSE "ok"
-         m == Merge(inst, self, other)
+         res == ResOf(br)
+         m == Merge(self, other)
+         judged == SameInfo(inst, self, other)
          \* the history variable follows the property level, not the code
-         m2 == [m EXCEPT !.got = PropGot(self, other, res)] IN
+         m2 == IF judged THEN [m EXCEPT !.got = PropGot(self, other, res)] ELSE m IN
      /\ pool' = DropAt([pool EXCEPT ![i] = m2], j)
-     /\ act' = [a |-> "merge", i |-> i, j |-> j, res |-> res, br |-> br, bx |-> bx, known |-> known, bugs |-> bug + (IF known THEN 1 ELSE 0),
-                obs |-> Obs(inst, m2), prop |-> PropObs(inst, m2.got),
-                propres |-> PropResultOk(self, other, res)]
-  /\ UNCHANGED <<inst, nparse>>
+     /\ act' = [a |-> "merge", i |-> i, j |-> j, v |-> self.ver, res |-> res, br |-> br, bx |-> bx, known |-> known,
+                bugs |-> bug + (IF known THEN 1 ELSE 0), judged |-> judged,
+                obs |-> Obs(inst, m2), prop |-> IF judged THEN PropObs(inst, m2.got) ELSE Obs(inst, m2),
+                propres |-> judged => PropResultOk(self, other, res)]
+  /\ UNCHANGED <<inst, cnt>>
 
 \* the named actions
 MergeInto(i, j) == MergeStep(i, j, FALSE) /\ bug' = bug
 MergeRepeated_KnownBug(i, j) == MergeStep(i, j, TRUE) /\ bug' = bug + 1
 
+\* take_info: hands out the info iff it is complete and leaves an emptied partial behind
+TakeInfo(i) ==
+  /\ i \in 1..Len(pool)
+  /\ LET x == pool[i] IN
+     /\ pool' = IF Complete(inst, x) THEN [pool EXCEPT ![i] = Spent] ELSE pool
+     /\ act' = [a |-> "take", i |-> i, v |-> x.ver, obs |-> Obs(inst, x), judged |-> Pure(inst, x),
+                prop |-> IF Pure(inst, x) THEN PropObs(inst, x.got) ELSE Obs(inst, x)]
+  /\ UNCHANGED <<inst, cnt, bug>>
+
 \* ---------------------------------------------------------------- invariants
-\* detailed level, repaired code: the mask says which parts were merged; no client twice
-MaskExact == MaskUpdated => \A k \in 1..Len(pool) :
-               pool[k].rcv = UNION {inst.parts[p].bits : p \in pool[k].got}
-DuplicateFree == \A k \in 1..Len(pool) : \A c \in DOMAIN pool[k].cls : pool[k].cls[c] = 1
-\* property level: what is observable of every partial is what the set of merged parts says
-CompleteExact == \A k \in 1..Len(pool) : Obs(inst, pool[k]) = PropObs(inst, pool[k].got)
+\* detailed level, repaired code: the mask says which parts were merged
+MaskExact == MaskUpdated => \A k \in 1..Len(pool) : pool[k].rcv = ExactRcv(inst, pool[k])
+\* property level, on the partials the property speaks about: no client twice; what is observable
+\* is what the set of merged parts says
+DuplicateFree == \A k \in 1..Len(pool) : Pure(inst, pool[k]) => \A c \in DOMAIN pool[k].cls : pool[k].cls[c] = 1
+CompleteExact == \A k \in 1..Len(pool) : Pure(inst, pool[k]) => Obs(inst, pool[k]) = PropObs(inst, pool[k].got)
 LastStepLegal == act.a = "merge" => act.propres
 PropertyHolds == DuplicateFree /\ CompleteExact /\ LastStepLegal
-\* order-freeness and idempotence, stated directly on every pair of partials held
-Commutes == \A i \in 1..Len(pool), j \in 1..Len(pool) : i # j =>
+\* order-freeness and idempotence, stated directly on every pair of partials of the same info
+Commutes == \A i \in 1..Len(pool), j \in 1..Len(pool) : i # j /\ SameInfo(inst, pool[i], pool[j]) =>
    LET a == pool[i]  b == pool[j] IN
-   (Branch(inst, a, b) # "overlap" /\ Branch(inst, b, a) # "overlap")
-      => Obs(inst, Merge(inst, a, b)) = Obs(inst, Merge(inst, b, a))
-Idempotent == \A i \in 1..Len(pool), j \in 1..Len(pool) : i # j =>
-   LET a == pool[i]  b == pool[j]  ab == Merge(inst, a, b) IN
-   Branch(inst, a, b) # "overlap" => Obs(inst, Merge(inst, ab, b)) = Obs(inst, ab)
+   (Branch(a, b) # "overlap" /\ Branch(b, a) # "overlap")
+      => Obs(inst, Merge(a, b)) = Obs(inst, Merge(b, a))
+Idempotent == \A i \in 1..Len(pool), j \in 1..Len(pool) : i # j /\ SameInfo(inst, pool[i], pool[j]) =>
+   LET a == pool[i]  b == pool[j]  ab == Merge(a, b) IN
+   Branch(a, b) # "overlap" => Obs(inst, Merge(ab, b)) = Obs(inst, ab)
+\* detailed laws about what the property does not speak of: a part with another token or version,
+\* and anything merged into an emptied partial, is refused and changes nothing
+ForeignInert == \A i \in 1..Len(pool), j \in 1..Len(pool) : i # j =>
+   LET a == pool[i]  b == pool[j] IN
+   (a.tok # b.tok \/ a.ver # b.ver \/ a.taken) => Merge(a, b) = a /\ ResOf(Branch(a, b)) # "ok"
 \* every violation of the property is explained by the known bug (F1) ...
 OnlyKnownBug == bug = 0 => PropertyHolds
 \* ... which the repaired code does not have
